@@ -56,3 +56,42 @@ Fixpoint lxml_of (scope : list (pystr * pystr)) (x : xnode) {struct x} : xel :=
   | KComment => XEl LComment [] None [] (Some text) (opt_text tail) [] []
   | KPI => XEl LPI name None [] (Some text) (opt_text tail) [] []
   end.
+
+(** * The value of an imported tree *)
+(** the value of an imported node; the nsmap may carry the key None (default namespace) *)
+Record ind := {
+  i_name : pystr;
+  i_content : option pystr;
+  i_tail : option pystr;
+  i_prefix : option pystr;
+  i_attrs : list (pystr * pystr);
+  i_extras : list (pystr * pystr);
+  i_nsmap : list (option pystr * pystr)
+}.
+
+Inductive itree : Type := IT (d : ind) (kids : list itree).
+Definition it_d (t : itree) := let 'IT d _ := t in d.
+Definition it_kids (t : itree) := let 'IT _ k := t in k.
+
+Inductive res (A : Type) : Type :=
+| Ok (a : A)
+| Crash (kind : pystr).
+Arguments Ok {A} a.
+Arguments Crash {A} kind.
+
+(** dicts keyed by Optional[str] *)
+Definition okey_eqb (a b : option pystr) : bool := opt_eqb pystr_eqb a b.
+
+Fixpoint oassoc (k : option pystr) (d : list (option pystr * pystr)) : option pystr :=
+  match d with
+  | [] => None
+  | (k', v) :: r => if okey_eqb k k' then Some v else oassoc k r
+  end.
+
+Fixpoint odict_set (k : option pystr) (v : pystr) (d : list (option pystr * pystr))
+  : list (option pystr * pystr) :=
+  match d with
+  | [] => [(k, v)]
+  | (k', v') :: r => if okey_eqb k k' then (k', v) :: r else (k', v') :: odict_set k v r
+  end.
+
